@@ -108,6 +108,25 @@ func envSymlink(path, target string, mtime int64) {
 	envMust(unix.Lutimes(path, []unix.Timeval{{Sec: mtime}, {Sec: mtime}}))
 }
 
+// envDeepDirs: nested directories made with mkdirat relative to the parent's descriptor, so the
+// absolute path of the lower part may exceed PATH_MAX.
+func envDeepDirs(root, name string, levels int) {
+	fd, err := unix.Open(root, unix.O_DIRECTORY|unix.O_RDONLY, 0)
+	envMust(err)
+	for i := 0; i < levels; i++ {
+		envMust(unix.Mkdirat(fd, name, 0755))
+		nfd, err := unix.Openat(fd, name, unix.O_DIRECTORY|unix.O_RDONLY, 0)
+		envMust(err)
+		unix.Close(fd)
+		fd = nfd
+	}
+	ffd, err := unix.Openat(fd, "f", unix.O_CREAT|unix.O_WRONLY, 0644)
+	envMust(err)
+	unix.Write(ffd, []byte("F"))
+	unix.Close(ffd)
+	unix.Close(fd)
+}
+
 func envMkfifo(path string) { envMust(syscall.Mkfifo(path, 0644)) }
 func envChdir(path string)  { envMust(os.Chdir(path)) }
 
